@@ -53,7 +53,8 @@ PermSeqs(k) == {p \in [1..k -> 1..k] : \A i, j \in 1..k : i # j => p[i] # p[j]}
 BigPerms(k) == {[i \in 1..k |-> k - i + 1]} \cup {[i \in 1..k |-> ((i + s - 1) % k) + 1] : s \in 1..(k - 1)}
                \cup {[i \in 1..k |-> IF i = j THEN j + 1 ELSE IF i = j + 1 THEN j ELSE i] : j \in 1..(k - 1)}
 
-ForeignGroups == << <<158, 2, 1, 2>>, <<31, 254, 1, 9>>, <<255, 127, 0>>, <<158>> >>
+\* (tag 00 - the "filler" of ISO 7816 - is a foreign tag like any other: alone, with an empty value, with a value)
+ForeignGroups == << <<158, 2, 1, 2>>, <<31, 254, 1, 9>>, <<255, 127, 0>>, <<158>>, <<0>>, <<0, 0>>, <<0, 1, 7>>, <<0, 0, 0>> >>
 
 Apply(gs, p) == [i \in 1..Len(gs) |-> gs[p[i]]]
 InsertAt(s, pos, x) == SubSeq(s, 1, pos) \o <<x>> \o SubSeq(s, pos + 1, Len(s))    \* after position pos (0..Len)
@@ -115,7 +116,7 @@ NestedTailCases(t, v) ==
       rewrap(j, x) == LET f == fieldOf(gs[j].tag)
                           inner == EncStruct(f.sub, IF f.card = "req" THEN v[f.name] ELSE v[f.name][1]) \o x IN
                       TagDefEnc(f.tag) \o LenEnc(f.len, Len(inner)) \o inner
-      ins == {<<158, 1, 7>>, <<31, 254, 0>>}
+      ins == {<<158, 1, 7>>, <<31, 254, 0>>, <<0>>, <<0, 0>>}
   IN {[ty |-> t, cls |-> "nestedtail",
        in |-> Frame(t, pos \o Cat(SubSeq(gs, 1, j - 1)) \o rewrap(j, x) \o Cat(SubSeq(gs, j + 1, k))),
        base |-> Frame(t, pos \o Cat(gs))] : <<j, x>> \in {y \in (1..k) \X ins : isStruct(gs[y[1]].tag)}}
